@@ -248,8 +248,34 @@ def multi_stage_shared(kind, K=3, rounds=2, outer_first=False):
     return {"R": R, "ops": ops, "ranks": ranks, "mode": "plain"}
 
 
+def wrapper_fanout(K=3, kind="wrappers"):
+    """rank 0 sends K different results to rank 1 in one round (one part with K+1 outputs), every output reads a
+    different unnamed data wrapper (kind 'wrappers') / placeholder (kind 'inputs'); rank 1 combines what it got
+    with wrappers of its own and answers"""
+    R = 2
+    ops = [{"src": 0, "dst": 1, "tag": 100 + k, "deps": [], "use_input": True} for k in range(K)]
+    ops.append({"src": 1, "dst": 0, "tag": 100 + K, "deps": list(range(K)), "use_input": True})
+
+    def leaf(r, k):
+        if kind == "wrappers":
+            return ["dw", f"w{k}r{r}", SHAPE, DT]
+        return ["ph", "xyzwuv"[k], SHAPE, DT, f"rank{r}"]
+    out0 = ["bin", "add", ["bin", "mul", recv_term(ops[K]), ["py", 2.0]], leaf(0, K)]
+    res = out0
+    for k in range(K):
+        res = ["send", ["bin", "mul", leaf(0, k), ["py", float(k + 2)]], 1, ops[k]["tag"], res]
+    back = combine([recv_term(ops[k]) for k in range(K)] + [leaf(1, 0)], 70)
+    out1 = combine([recv_term(ops[0]), leaf(1, 1), leaf(1, 2)], 2000)
+    ranks = {0: {"outs": [["out", res], ["aux", ["bin", "add", leaf(0, K + 1), ["py", 1.0]]]]},
+             1: {"outs": [["out", ["send", back, 0, ops[K]["tag"], out1]]]}}
+    return {"R": R, "ops": ops, "ranks": ranks, "mode": "plain"}
+
+
 def structured(tier):
     res = []
+    for K in (2, 3):
+        res.append((f"wrapper-fanout{K}", wrapper_fanout(K)))
+    res.append(("input-fanout3", wrapper_fanout(3, "inputs")))
     for kind in ("inputs", "stored", "mixed"):
         for K in (2, 3):
             res.append((f"multi-stage-{kind}{K}", multi_stage_shared(kind, K)))
